@@ -702,7 +702,10 @@ fn replay(args: &Args) -> i32 {
         let want = Raw::from_json(&expand_rle(&case["want"]));
         n += 1;
         max_lk = max_lk.max(f.lk.len());
-        if want.lk.iter().take(256).any(|w| w[0] >= 254 && (w[2] != 0 || w[3] != 0)) {
+        // redirect words: stop words in front of the last word that point somewhere (the boundary carrier
+        // points at 0, the left boundary pointer is the last word)
+        let nlk = want.lk.len();
+        if want.lk.iter().take(nlk.saturating_sub(1)).take(256).any(|w| w[0] >= 254 && (w[2] != 0 || w[3] != 0)) {
             redirected += 1;
         }
         let b0 = f.bytes();
